@@ -527,7 +527,8 @@ def int_case(name, vals, form, acc):
             key = "C14/int/%s/operand-clobbered/%s" % (spec.key, bname)
             acc.violation(key, "%s changed operand #%d from %s to %s"
                           % (call, clob[0][0], short(clob[0][1], 40), short(clob[0][2], 40)), case,
-                          script=_clobber_script(spec, vals, bname), size=_size(vals))
+                          script=_clobber_script(spec, vals, bname),
+                          size=_size(vals) + (0 if ok and not exp[2] else 10 ** 6))   # prefer an otherwise clean example
             keys.append(key)
     return keys
 
